@@ -402,14 +402,45 @@ class Model:
                         domains[other.name].discard(val)
         return True
 
+    def _linearize(self, expr) -> tuple[list[tuple["IntVar", int]], int]:
+        """Normalise a linear expression to ([(variable, coefficient)], constant)."""
+        coefs: dict[str, tuple[IntVar, int]] = {}
+        const = 0
+
+        def walk(e, k):
+            nonlocal const
+            if isinstance(e, IntVar):
+                coefs[e.name] = (e, coefs.get(e.name, (e, 0))[1] + k)
+            elif isinstance(e, int):
+                const += k * e
+            elif isinstance(e, tuple) and e[0] == "add":
+                walk(e[1], k)
+                walk(e[2], k)
+            elif isinstance(e, tuple) and e[0] == "sub":
+                walk(e[1], k)
+                walk(e[2], -k)
+            elif isinstance(e, tuple) and e[0] == "rsub":  # ("rsub", var, c) means c - var
+                walk(e[2], k)
+                walk(e[1], -k)
+            elif isinstance(e, tuple) and e[0] == "mul":  # ("mul", operand, int)
+                walk(e[1], k * e[2])
+            else:
+                raise ValueError(f"Cannot propagate expression: {e!r}")
+
+        walk(expr, 1)
+        return [(v, c) for v, c in coefs.values() if c != 0], const
+
     def _propagate_ne_expr(self, left, right, is_ne: bool, domains: dict[str, set[int]]) -> bool:
         """Propagate (left_expr != right_expr) or (left_expr == right_expr)."""
-        left_terms, left_const = self._flatten_sum(left)
-        right_terms, right_const = self._flatten_sum(right)
+        # sum(coef * var) + const ?= 0
+        terms, const = self._linearize(("sub", left, right))
 
-        if len(left_terms) == 1 and len(right_terms) == 1:
-            var1, var2 = left_terms[0], right_terms[0]
-            offset = right_const - left_const
+        if len(terms) == 2 and {terms[0][1], terms[1][1]} == {1, -1}:
+            # var1 - var2 + const ?= 0, i.e. var1 ?= var2 + offset
+            (var1, c1), (var2, _) = terms
+            if c1 == -1:
+                var1, var2 = var2, var1
+            offset = -const
 
             if is_ne:
                 # var1 != var2 + offset
@@ -427,5 +458,10 @@ class Model:
                     return False
                 domains[var1.name] = valid1
                 domains[var2.name] = valid2
+
+        elif all(len(domains[var.name]) == 1 for var, _ in terms):
+            # Any other shape is checked once its variables are assigned
+            total = const + sum(coef * next(iter(domains[var.name])) for var, coef in terms)
+            return (total != 0) if is_ne else (total == 0)
 
         return True
